@@ -140,7 +140,7 @@ func oracleC09(c *oracleCtx) {
 
 var gapRe = regexp.MustCompile(`^(?:[ \t\r\n]|//[^\n\x00]*)*$`)
 
-var gapBlockRe = regexp.MustCompile(`^(?:[ \t\r\n]|//[^\n\x00]*|/\*(?:[^*\x00]|\*[^/\x00])*(?:\*/|\*?$))*$`)
+var gapBlockRe = regexp.MustCompile(`^(?:[ \t\r\n]|//[^\n\x00]*|/\*[^*\x00]*\*+(?:[^/*\x00][^*\x00]*\*+)*/|/\*(?:[^*\x00]|\*+[^/*\x00])*\**$)*$`)
 
 // tilingPlugin: 0 the plain lexer; 1 a plugin that builds some tokens through the exported NewToken (the token stream
 // must be that of the plain lexer); 2 a plugin that consumes block comments itself (they count as gap text)
